@@ -241,6 +241,7 @@ func (x *Explorer) record(f Finding, root string, trace []string, phase int) {
 // block succeeded plus the new measures.
 func (x *Explorer) step(op *Op, parent []Measure, path []string, root string, phase int, judge bool) (bool, []Measure) {
 	w := x.W
+	preV, preEnv := w.Height(), w.Env
 	pres := make([]interface{}, len(x.Cfg.Oracles))
 	plan := w.PlanOp(op)
 	if judge {
@@ -293,7 +294,16 @@ func (x *Explorer) step(op *Op, parent []Measure, path []string, root string, ph
 					}
 					if nz(v) && v != pv {
 						cl, disc := splitKey(k)
-						x.record(Finding{Clause: cl, Culprit: op.Kind, Disc: disc, Detail: fmt.Sprintf("drift %s -> %s after op %s", orZero(pv), v, op.Name)}, root, path, phase)
+						culprit := op.Kind
+						// attribution: if the block WITHOUT the op's transactions (same header, same feed, same
+						// gov steps) shows the same drift, the culprit is block processing (begin/end blockers,
+						// sweeps), not the op that happened to share the block
+						if len(plan.Txs) == 0 && len(plan.Gov) == 0 {
+							culprit = "block_processing" // nothing but begin/end blockers ran
+						} else if len(plan.Txs) > 0 && x.siblingShows(i, k, v, plan, preV, preEnv) {
+							culprit = "block_processing"
+						}
+						x.record(Finding{Clause: cl, Culprit: culprit, Disc: disc, Detail: fmt.Sprintf("drift %s -> %s after op %s", orZero(pv), v, op.Name)}, root, path, phase)
 					}
 				}
 			}
@@ -310,6 +320,30 @@ func (x *Explorer) step(op *Op, parent []Measure, path []string, root string, ph
 		x.outs[outcomeOf(br)] = true
 	}
 	return true, ms
+}
+
+// siblingShows re-runs the block without its transactions and reports whether oracle #oi shows the
+// same drift value for key; the explored state is restored by re-executing the original plan.
+func (x *Explorer) siblingShows(oi int, key, val string, plan *BlockPlan, v int64, env Env) bool {
+	w := x.W
+	want := w.App.LastCommitID().Hash
+	w.Rollback(v, env)
+	sib := *plan
+	sib.Txs, sib.TxIndex, sib.GovErrs = nil, nil, nil
+	shows := false
+	if br := w.Exec(&sib); br.OK() {
+		if m := x.Cfg.Oracles[oi].State(w); m != nil && m[key] == val {
+			shows = true
+		}
+	}
+	w.Rollback(v, env)
+	re := *plan
+	re.TxIndex, re.GovErrs = nil, nil
+	if br := w.Exec(&re); !br.OK() || string(w.App.LastCommitID().Hash) != string(want) {
+		panic("attribution sibling: re-execution diverged")
+	}
+	x.res.Transitions += 2
+	return shows
 }
 
 func orZero(s string) string {
